@@ -158,6 +158,12 @@ func (eval Evaluator) PartialTracesSum(ctIn *Ciphertext, offset, n int, opOut *C
 		return fmt.Errorf("partialtrace: invalid parameter (n = 0 or batchSize = 0)")
 	}
 
+	// The rotations act on the first two components only: a third one (a product that was
+	// not relinearized) would be left to whatever the receiver holds.
+	if ctIn.Degree() != 1 {
+		return fmt.Errorf("partialtrace: ctIn.Degree() must be 1 but is %d", ctIn.Degree())
+	}
+
 	params := eval.GetRLWEParameters()
 
 	levelQ := ctIn.Level()
